@@ -1336,24 +1336,25 @@ class LogFileOutput(TextFileOutput):
 
             # Curry strptime with time_format string.
             def test_parser(logstamp):
-                return datetime.datetime.strptime(logstamp, time_format)
+                return datetime.datetime.strptime(logstamp, time_format), logs_have_year
 
             parse_fn = test_parser
         elif isinstance(time_format, list):
-            logs_have_year = all('%Y' in tf or '%y' in tf for tf in time_format)
             time_re = re.compile(
                 '(' + '|'.join(timefmt_re.sub(replacer, tf) for tf in time_format) + ')'
             )
 
             def test_all_parsers(logstamp):
                 # One of these must match, because the regex has selected only
-                # strings that will match.
+                # strings that will match.  Whether the stamp carries a year
+                # depends on the format that matched it.
                 for tf in time_format:
                     try:
                         ts = datetime.datetime.strptime(logstamp, tf)
+                        has_year = '%Y' in tf or '%y' in tf
                     except ValueError:
                         pass
-                return ts
+                return ts, has_year
 
             parse_fn = test_all_parsers
         else:
@@ -1380,8 +1381,8 @@ class LogFileOutput(TextFileOutput):
             # Otherwise, search all lines
             match = time_re.search(line)
             if match:
-                logstamp = parse_fn(match.group(0))
-                if not logs_have_year:
+                logstamp, has_year = parse_fn(match.group(0))
+                if not has_year:
                     # Substitute timestamp year for logstamp year
                     logstamp = logstamp.replace(year=timestamp.year)
                     if logstamp - timestamp > eleven_months:
